@@ -118,6 +118,7 @@ func cmdCheck(args []string) int {
 	known := fs.String("known", "/verif/known_findings.json", "")
 	cmdline := fs.String("cmdline", "", "checker command line to record")
 	par := fs.Int("par", 8, "parallel obligations")
+	only := fs.String("only", "", "development: verify only functions whose key contains this string (never used by registered commands)")
 	fs.Parse(args)
 	t0 := time.Now()
 	seed := 0
@@ -151,6 +152,9 @@ func cmdCheck(args []string) int {
 	for _, k := range sortedKeys(p.con.Funcs) {
 		s := p.con.Funcs[k]
 		if s.Kind != "func" || !specMentions(s, *prop) {
+			continue
+		}
+		if *only != "" && !strings.Contains(k, *only) {
 			continue
 		}
 		fi := p.funcs[k]
@@ -338,7 +342,11 @@ func cmdCheck(args []string) int {
 			suffix = " no-failing-input-found"
 		}
 		fmt.Printf("VIOLATION property=%s replay=%s%s\n", *prop, path, suffix)
-		fmt.Printf("  failed obligation %s [%s] at %s: %s (solver: %s)\n", o.Name, o.Kind, o.Where, o.Text, o.Result.Status)
+		serr := ""
+		if i := strings.Index(o.Result.Output, "(error"); i >= 0 && !strings.Contains(o.Result.Output, "model is not available") {
+			serr = " SOLVER-ERROR " + strings.SplitN(o.Result.Output[i:], "\n", 2)[0]
+		}
+		fmt.Printf("  failed obligation %s [%s] at %s: %s (solver: %s%s)\n", o.Name, o.Kind, o.Where, o.Text, o.Result.Status, serr)
 		exit = 1
 	}
 	var boundedSamples []map[string]any
